@@ -256,9 +256,11 @@ func (c *Cache[k, v]) pruneCount() {
 		return
 	}
 	// entries are pruned one at a time, the lock may be released while waiting for an entry,
-	// the least recently used entry and the number of entries are read again after every wait
+	// the least recently used entry and the number of entries are read again after every wait.
+	// Every round removes an entry, skips one whose cleanup failed, or follows a use of the entry during the wait,
+	// so the pass ends at the limit, when only failing entries are left, or when the users of the entries stop.
 	skip := map[k]bool{}
-	for tries := 4*len(c.entries) + 4; len(c.entries) > c.minCount && tries > 0; tries-- {
+	for len(c.entries) > c.minCount {
 		var key k
 		var e *Entry[v]
 		for ck, ce := range c.entries {
